@@ -88,6 +88,7 @@ def cases(draw, stratum='any'):
         ok = pref or ok
     kind = draw(st.sampled_from(ok or ['none']))
     return {'history': h, 'rows': rows, 'links': links,
+            'keep_deps': stratum == 'two_apps' and draw(st.booleans()),
             'perturb': {'kind': kind, 'i': i, 'j': j, 'pick': pick}}
 
 
@@ -280,10 +281,13 @@ def check(case):
             return out
         v1p['spec'] = tgt
         vers = vers[:last] + [dict(vers[last], spec=tgt)]
-    if len({s_['app'] for s_ in h['steps']}) > 1:
+    if len({s_['app'] for s_ in h['steps']}) > 1 and not case.get('keep_deps'):
         # the two apps' evolutions are independent field-level changes: no dependency declared
+        # (keep_deps: the second app's evolution declares AFTER_EVOLUTIONS on the first one's)
         v1p['deps'] = {}
         vers = [dict(v, deps={}) for v in vers]
+    if case.get('keep_deps'):
+        out['labels'].append('cross_app_dependency_declared')
     with P.Scratch('c12_') as sc:
         dirs = H.write_versions(sc, [vers[0], v1p, vers[last]])
         db = sc.sub('db.sqlite3')
